@@ -31,6 +31,7 @@ func packetTypes(w *World) map[string]types.Type {
 }
 
 func runC10(w *World, r *Report, tier string) {
+	wireRule(w, r, "W1", "<r/> asks for an acknowledgement, <a h=…/> carries it", wireSMRequest, wireSMAnswer)
 	r.Rule("R1", "hold before send: with StreamManagementEnable, every packet type other than SMRequest/SMAnswer passes exactly one Push of the serialized stanza before the write in Client.Send; SendRaw pushes its string before the write")
 	r.Rule("R2", "acknowledgement elements are not held: for SMRequest and SMAnswer no feasible path of Client.Send reaches Push")
 	r.Rule("R3", "Router.route hands SMAnswer.H (converted, no arithmetic) and the client's queue to SendMissingStz")
